@@ -11,7 +11,7 @@ CHUNKS = 16
 LENGTHS = list(range(0, 65))
 N_FIXED = CHUNKS + 2 + len(LENGTHS)
 TIERS = {
-    'quick': {'cases': N_FIXED + 40, 'wall': 100, 'chunk': 1},
+    'quick': {'cases': N_FIXED + 120, 'wall': 100, 'chunk': 1},
     'thorough': {'cases': N_FIXED + 3000, 'wall': 900, 'chunk': 4},
 }
 EXHAUSTIVE = {'quick': False, 'thorough': False}
@@ -20,8 +20,9 @@ RULE = ('fixed jobs: 16 chunk programs that write every 16-bit integer (4096 con
         '256 bytes and both bools; for every length 0..64 one program writing a byte array/string of that '
         'length in eight storage classes (const global, mutable global, mutable local literal, dynamic and '
         'filled, string literal, string variable, string converted with `is byte[]`, argv). seeded jobs: '
-        'boundary and random integers at 24/32/64 bits, each also at the measured minimal stack with '
-        'poisoned free memory. oracle: committed output vs the reference interpreter (str(int), raw bytes, '
+        'boundary and random integers at 24/32/64 bits, and "lean" programs in which write(int) is the '
+        'deepest call of a function holding a live stack array (main / callee / loop), each also at the '
+        'measured minimal stack with poisoned free memory. oracle: committed output vs the reference interpreter (str(int), raw bytes, '
         'true/false, exactly one newline for writeln) plus M-mem on every store of the library routines '
         'and guard variables checked by the program itself. distinct = hash of (source, argv, config); '
         'non-trivial = the run printed at least one value through the write family and won.')
@@ -116,6 +117,40 @@ def samples_prog(vals):
     return prog([], [dump_func('byte'), func('empty', '@is_you', [(arr('int', True), 'q')], *body)])
 
 
+def lean_prog(rnd, W):
+    """write(int) is the deepest call of a function that holds a live stack array:
+    nothing else raises the frame high-water mark, so the digit buffer must be
+    accounted for by the write call itself."""
+    maxs = (1 << (8 * W - 1)) - 1
+    n = rnd.randrange(1, 9)
+    el = rnd.choice(('byte', 'byte', 'int', 'bool'))
+    if el == 'byte':
+        lit = ('arr', tuple(C(0x41 + k) for k in range(n)))
+        show = [write(idx('a', V('i')))]
+    elif el == 'int':
+        lit = ('arr', tuple(I(k + 1) for k in range(n)))
+        show = [write(is_(idx('a', V('i')), 'byte'))]
+    else:
+        lit = ('arr', tuple(B(k % 2 == 0) for k in range(n)))
+        show = [write(is_(idx('a', V('i')), 'byte'))]
+    vals = [rnd.choice((maxs, -maxs - 1, -maxs, maxs - 1, 10 ** (len(str(maxs)) - 1), -(10 ** (len(str(maxs)) - 1)))),
+            rnd.randrange(-maxs - 1, maxs + 1), rnd.choice((0, 7, -7, 12345 % maxs))]
+    core = [decl(arr(el), 'a', lit, True)]
+    where = rnd.choice(('main', 'callee', 'loop'))
+    writes = [rnd.choice((write, writeln))(V('n')), *[rnd.choice((write, writeln))(I(v)) for v in vals[1:]]]
+    tail = [for_up('i', I(0), I(n), *show), write(C('.'))]
+    if where == 'loop':
+        body = core + [for_up('k', I(0), I(2), *writes)] + tail
+    else:
+        body = core + writes + tail
+    if where == 'callee':
+        fs = [func('empty', 'leaf', [('int', 'n')], *body),
+              func('empty', '@is_you', [('int', 'n')], ex(call('leaf', V('n'))), write(C('!')))]
+    else:
+        fs = [func('empty', '@is_you', [('int', 'n')], *body)]
+    return prog([], fs), [str(vals[0])]
+
+
 def job(seed, idx):
     """-> (label, prog, argv, W, do_tight)"""
     if idx < CHUNKS:
@@ -131,6 +166,10 @@ def job(seed, idx):
         p, argv = length_prog(L)
         return (f'length {L}', p, argv, (2, 3, 4, 8)[L % 4], L % 8 == 0)
     rnd = case_rng(seed, ID, idx)
+    if idx % 2 == 0:
+        W = rnd.choice((2, 2, 3, 4, 8))
+        p, argv = lean_prog(rnd, W)
+        return (f'lean write(int) W={W}', p, argv, W, True)
     W = rnd.choice((3, 4, 8))
     maxs = (1 << (8 * W - 1)) - 1
     edge = [0, 1, -1, 9, 10, -10, 99, 100, maxs, -maxs - 1, maxs - 1, -maxs, 10 ** (len(str(maxs)) - 1),
